@@ -29,6 +29,10 @@ type c10Scenario struct {
 	// not one atomic operation, so these scenarios are judged on everything but serialisability: no panic,
 	// no deadlock, lock protocol, every write to the shared stack inside its own locked section.
 	Peer bool `json:"peer_stack,omitempty"`
+	// Burst: before the threads start, this many extra values were pushed and popped again (the backing
+	// array has been large once); Trace: every log level is switched on and a live logger installed
+	Burst int  `json:"burst_before,omitempty"`
+	Trace bool `json:"trace_logging,omitempty"`
 }
 
 func (sc c10Scenario) String() string {
@@ -45,6 +49,12 @@ func (sc c10Scenario) String() string {
 	}
 	if sc.Peer {
 		pol += " peer-stack"
+	}
+	if sc.Burst > 0 {
+		pol += fmt.Sprintf(" burst=%d", sc.Burst)
+	}
+	if sc.Trace {
+		pol += " trace-logging"
 	}
 	return fmt.Sprintf("%s len=%d fifo=%v cap=%d%s {%s}", sc.Kind, sc.InitLen, sc.FIFO, sc.Cap, pol, strings.Join(p, " || "))
 }
@@ -147,6 +157,23 @@ func (sc c10Scenario) mk() stackage.Stack {
 		s.SetNegativeIndices(true).SetForwardIndices(true)
 	}
 	s.Push(sc.initial()...)
+	if sc.Burst > 0 {
+		extra := make([]any, sc.Burst)
+		for i := range extra {
+			extra[i] = fmt.Sprintf("b%d", i)
+		}
+		s.Push(extra...)
+		for i := 0; i < sc.Burst; i++ {
+			if sc.FIFO {
+				s.Remove(s.Len() - 1)
+			} else {
+				s.Pop()
+			}
+		}
+	}
+	if sc.Trace {
+		s.SetLogger(c11EnvLogger).SetLogLevel("all")
+	}
 	if sc.Peer {
 		s.SetAuxiliary(stackage.Auxiliary{"peer": stackage.List().Push("p0", "p1").SetMutex()})
 	}
@@ -413,6 +440,26 @@ func c10Scenarios(c *Ctx) (out []c10Scenario, bounds []int) {
 			out = append(out, c10Scenario{InitLen: cf[0], FIFO: cf[1] == 1, Progs: progs, Peer: true})
 			bounds = append(bounds, 2)
 		}
+	}
+	// a history before the threads start (the backing array has been large once: growth and shrink steps
+	// lie at 16 / 32 / 64 slices), and every log level switched on with a live logger behind it
+	for _, bl := range [][2]int{{20, 7}, {20, 8}, {20, 9}, {40, 15}, {40, 16}, {40, 17}, {70, 3}} {
+		for _, fifo := range []bool{false, true} {
+			for _, progs := range [][][]string{{{"Pop"}, {"Push1"}}, {{"Pop"}, {"Pop"}, {"Push1"}}, {{"Remove0"}, {"Push1"}}, {{"Pop", "Pop"}, {"Push1"}}, {{"Pop"}, {"Insert1"}}, {{"Reset"}, {"Push2"}}, {{"Pop"}, {"Replace0"}}} {
+				out = append(out, c10Scenario{InitLen: bl[1], FIFO: fifo, Progs: progs, Burst: bl[0]})
+				bounds = append(bounds, 2)
+			}
+		}
+	}
+	for _, cf := range cfgs(1) {
+		for i, a := range ops[:8] {
+			for _, b := range ops[i:8] {
+				out = append(out, c10Scenario{InitLen: cf[0], FIFO: cf[1] == 1, Cap: cf[2], Progs: [][]string{{a}, {b}}, Trace: true})
+				bounds = append(bounds, -1)
+			}
+		}
+		out = append(out, c10Scenario{InitLen: cf[0], FIFO: cf[1] == 1, Cap: cf[2], Progs: [][]string{{"Push1"}, {"Push1"}, {"Pop"}}, Trace: true})
+		bounds = append(bounds, 2)
 	}
 	if c.Quick() {
 		// a slice of 2x2 and 3x1 so that the per-change run also sees longer programs
